@@ -21,6 +21,7 @@ def pChar (c : Char) : P Unit := fun cs => match cs with | x :: r => if x == c t
 def pVal : P Val := fun cs =>
   match cs with
   | 'N' :: '.' :: r => some (.null, r)
+  | 'A' :: '.' :: r => some (.str [255, 65, 85, 84, 79], r)   -- "the database assigns the next auto-increment value"
   | 'i' :: r => match pInt r with
     | some (i, '.' :: r') => some (.int i, r')
     | _ => none
